@@ -300,6 +300,52 @@ fn strategy(tier: Tier) -> BoxedStrategy<History> {
     history_strategy(tier, cfg!(feature = "full"))
 }
 
+/// Updates beyond 32-bit sizes: a prefix, then ONE update of `len` zero bytes (lazily mapped
+/// zero pages, no RAM), then a suffix; serial or rayon.
+#[derive(Clone, Debug, Serialize, Deserialize)]
+pub struct HugeCase {
+    pub mode: ModeC,
+    pub prefix: u32,
+    pub len: u64,
+    pub suffix: u32,
+    pub rayon: bool,
+}
+
+pub fn check_huge(c: &HugeCase) -> Result<(), String> {
+    let big = vec![0u8; c.len as usize];
+    let small = Content { kind: 3, seed: c.len ^ 77 }.expand(c.prefix as usize + c.suffix as usize);
+    let (pre, suf) = small.split_at(c.prefix as usize);
+    let mut h = c.mode.hasher();
+    h.update(pre);
+    if c.rayon && cfg!(feature = "full") {
+        #[cfg(feature = "full")]
+        h.update_rayon(&big);
+    } else {
+        h.update(&big);
+    }
+    h.update(suf);
+    ensure!(h.count() == c.prefix as u64 + c.len + c.suffix as u64, "count() = {} after {} + {} + {} bytes", h.count(), c.prefix, c.len, c.suffix);
+    let mut all = Vec::with_capacity(c.prefix as usize + c.len as usize + c.suffix as usize);
+    all.extend_from_slice(pre);
+    all.extend_from_slice(&big);
+    all.extend_from_slice(suf);
+    drop(big);
+    let want = b3spec::root(&c.mode.kf(), &all).xof(0, 100);
+    let mut got = vec![0u8; 100];
+    h.finalize_xof().fill(&mut got);
+    eq_bytes(&format!("hasher after one update of {} bytes (prefix {}, suffix {}) vs spec", c.len, c.prefix, c.suffix), &got, &want)
+}
+
+fn huge_items(tier: Tier) -> Box<dyn Iterator<Item = HugeCase>> {
+    let mut v = vec![HugeCase { mode: ModeC::Hash, prefix: 1, len: (1u64 << 31) + 1024, suffix: 5, rayon: false }];
+    if tier == Tier::Thorough {
+        v.push(HugeCase { mode: ModeC::Keyed(*gen::TEST_KEY), prefix: 0, len: (1u64 << 32) + 1, suffix: 0, rayon: false });
+        v.push(HugeCase { mode: ModeC::Hash, prefix: 1025, len: 1u64 << 32, suffix: 1, rayon: true });
+        v.push(HugeCase { mode: ModeC::Hash, prefix: 3 * 1024, len: (1u64 << 32) + 5 * 1024 + 3, suffix: 70, rayon: false });
+    }
+    Box::new(v.into_iter())
+}
+
 pub fn subs() -> Vec<Box<dyn DynSub>> {
     vec![Box::new(PropSub::<History> {
         name: "histories",
@@ -308,6 +354,16 @@ pub fn subs() -> Vec<Box<dyn DynSub>> {
         strategy,
         classify,
         check,
+        known: None,
+        crumb: false,
+    }),
+    Box::new(crate::runner::EnumSub::<HugeCase> {
+        name: "huge-update",
+        rule: "enumeration: one update of 2^31+1024 bytes after a 1-byte prefix (quick); single updates of 2^32+1, 2^32 (rayon, after 1025 bytes) and 2^32+5123 bytes after a 3-chunk prefix (thorough); count() and 100 XOF bytes vs spec (sizes beyond 32-bit arithmetic)",
+        items: huge_items,
+        classify: |c| Classes::new(true).tag(c.len >= (1u64 << 32), "update>=2^32-bytes").tag(c.rayon, "rayon"),
+        check: check_huge,
+        exhaustive: false,
         known: None,
         crumb: false,
     })]
